@@ -60,12 +60,17 @@ var keys = []keySpec{
 	{"GET", "/a/b", "", "/a/b"},
 	{"GET", "/abc/*{c}", "", "/abc/x/y"},
 	{"GET", "h.example.com/a", "h.example.com", "/a"},
+	// a fan of static siblings: inserts that sort before existing children of a node with spare slice capacity
+	{"GET", "/k/d", "", "/k/d"},
+	{"GET", "/k/c", "", "/k/c"},
+	{"GET", "/k/b", "", "/k/b"},
+	{"GET", "/k/a", "", "/k/a"},
 	{"POST", "/a", "", "/a"},
 	{"GET", "/a/{p}/c", "", "/a/zz/c"},
 	{"GET", "{s}.example.org/a/b", "s1.example.org", "/a/b"},
 }
 
-const nTxn = 6
+const nTxn = 10
 
 type KOp struct {
 	Kind string `json:"kind"` // handle, update, delete
